@@ -308,7 +308,15 @@ func (g *Gen) autoInvs(h *ssa.BasicBlock) []autoInv {
 		for i, p := range h.Preds {
 			e := phi.Edges[i]
 			if !h.Dominates(p) {
-				inits = append(inits, e)
+				dup := false
+				for _, x := range inits {
+					if x == e {
+						dup = true
+					}
+				}
+				if !dup {
+					inits = append(inits, e)
+				}
 				continue
 			}
 			d := stepOf(e, phi, 0)
@@ -333,49 +341,53 @@ func (g *Gen) autoInvs(h *ssa.BasicBlock) []autoInv {
 	return out
 }
 
-// stepOf: e == phi + k (k>0 -> +1, k<0 -> -1), possibly through inner phis that only add in the same direction.
-func stepOf(e ssa.Value, phi *ssa.Phi, depth int) int {
-	if depth > 3 {
-		return 0
+// mono: e >= phi (dir>0) or e <= phi (dir<0) by structure: phi itself, x±k with mono x, or a phi
+// all of whose incoming values are mono (coinductively). Only proposes invariants; every proposal
+// is still discharged as an obligation.
+func mono(e ssa.Value, phi *ssa.Phi, dir int, visiting map[ssa.Value]bool) bool {
+	if e == ssa.Value(phi) {
+		return true
 	}
-	bo, ok := e.(*ssa.BinOp)
-	if ok {
-		c, isC := bo.Y.(*ssa.Const)
+	if visiting[e] {
+		return true
+	}
+	switch x := e.(type) {
+	case *ssa.BinOp:
+		c, isC := x.Y.(*ssa.Const)
 		if !isC || c.Value == nil {
-			return 0
+			return false
 		}
 		k := c.Int64()
-		if bo.Op == token.SUB {
+		if x.Op == token.SUB {
 			k = -k
-		} else if bo.Op != token.ADD {
-			return 0
+		} else if x.Op != token.ADD {
+			return false
 		}
-		if bo.X == ssa.Value(phi) {
-			if k > 0 {
-				return 1
-			} else if k < 0 {
-				return -1
+		if (dir > 0 && k < 0) || (dir < 0 && k > 0) {
+			return false
+		}
+		return mono(x.X, phi, dir, visiting)
+	case *ssa.Phi:
+		visiting[e] = true
+		for _, ie := range x.Edges {
+			if !mono(ie, phi, dir, visiting) {
+				return false
 			}
-			return 0
 		}
-		if in := stepOf(bo.X, phi, depth+1); in != 0 && (in > 0) == (k > 0) {
-			return in
-		}
+		return true
+	}
+	return false
+}
+
+func stepOf(e ssa.Value, phi *ssa.Phi, depth int) int {
+	if e == ssa.Value(phi) {
 		return 0
 	}
-	if ip, ok := e.(*ssa.Phi); ok && ip != phi {
-		dir := 0
-		for _, ie := range ip.Edges {
-			if ie == ssa.Value(phi) {
-				continue
-			}
-			d := stepOf(ie, phi, depth+1)
-			if d == 0 || (dir != 0 && d != dir) {
-				return 0
-			}
-			dir = d
-		}
-		return dir
+	if mono(e, phi, 1, map[ssa.Value]bool{}) {
+		return 1
+	}
+	if mono(e, phi, -1, map[ssa.Value]bool{}) {
+		return -1
 	}
 	return 0
 }
@@ -900,7 +912,7 @@ func (g *Gen) indexAddr(x *ssa.IndexAddr) {
 	switch u := x.X.Type().Underlying().(type) {
 	case *types.Slice:
 		s := g.term(x.X).S
-		arr, idx, n = fmt.Sprintf("(sarr %s)", s), fmt.Sprintf("(+ (soff %s) %s)", s, i), fmt.Sprintf("(slen %s)", s)
+		arr, idx, n = fmt.Sprintf("(sarr %s)", s), fmt.Sprintf("(idx %s %s)", s, i), fmt.Sprintf("(slen %s)", s)
 		et = u.Elem()
 	case *types.Pointer:
 		at := u.Elem().Underlying().(*types.Array)
